@@ -145,12 +145,18 @@ def r074(ctx):
         a = [x for x in arms if x.keys == [('Method', 'n', 'basic', 'ConsumeOk')]][0]
         rets = [e for e in a.events if e.kind == 'ret']
         want = 'Err(errors::Error::DuplicateConsumerTag{channel_id: frame.Method.0, consumer_tag: frame.Method.1.Basic.0.ConsumeOk.0.consumer_tag})'
-        r.check('duplicate-tag', len(rets) == 1 and S.show(rets[0].term) == want and any('Entry::Occupied' in g[3] for g in rets[0].guards),
-                ctx.site(D.PROCESS, a.node), built=[S.show(x.term) for x in rets], expected=want + ' under Entry::Occupied')
-        ent = a.calls('HashMap::entry')
-        r.check('duplicate-tag:entry-key', len(ent) == 1 and S.show(ent[0].args[1]) == 'frame.Method.1.Basic.0.ConsumeOk.0.consumer_tag', ctx.site(D.PROCESS, a.node),
+        TAG = 'frame.Method.1.Basic.0.ConsumeOk.0.consumer_tag'
+        CONS = [S.show(c.args[0]) for c in a.calls('HashMap::insert')]
+        has = lambda e: [s_ for s_, p_ in S.lits_at(e) if isinstance(p_, bool) and s_.startswith('std::collections::HashMap::contains_key(') and s_.endswith(', %s)' % TAG)]
+        r.check('duplicate-tag', len(rets) == 1 and S.show(rets[0].term) == want and any(p_ is True and s_.startswith('std::collections::HashMap::contains_key(') and s_.endswith(', %s)' % TAG) for s_, p_ in S.lits_at(rets[0])),
+                ctx.site(D.PROCESS, a.node), built=[S.show(x.term) for x in rets], expected=want + ' where the tag is already in the table')
+        ent = [e for e in a.calls() if e.callee in ('std::collections::HashMap::entry', 'std::collections::HashMap::contains_key')]
+        r.check('duplicate-tag:entry-key', len(ent) == 1 and S.show(ent[0].args[1]) == TAG, ctx.site(D.PROCESS, a.node),
                 built=[S.show(e.term) for e in ent])
-        r.check('duplicate-tag:no-overwrite', not a.calls('HashMap::insert'), ctx.site(D.PROCESS, a.node), why='HashMap::insert would silently replace an existing consumer')
+        ins = a.calls('HashMap::insert')
+        r.check('duplicate-tag:no-overwrite', len(ins) == 1 and S.show(ins[0].args[1]) == TAG and any(p_ is False and s_.startswith('std::collections::HashMap::contains_key(') and s_.endswith(', %s)' % TAG) for s_, p_ in S.lits_at(ins[0])),
+                ctx.site(D.PROCESS, a.node), built=[S.show(c.term)[:160] for c in ins], expected='the consumer is stored only where the tag is not in the table yet',
+                why='an unguarded HashMap::insert would silently replace an existing consumer')
 
 
 def r075(ctx):
